@@ -229,10 +229,11 @@ SPECS["C18"] = {
                    "The obligations contain 512-term sums; they are emitted over Int (interval analysis proves no wrap) because bit-vector back ends do not terminate on them.",
     "units": [
         {"name": "valid", "pkg": "magic", "harnesses": ["HC18Valid"], "args": ["-frontier-mult", "1"], "quick_shards": 8, "thorough_shards": 16},
+        {"name": "writer", "pkg": "magic", "harnesses": ["HC18Writer"], "quick_shards": 16, "thorough_shards": 16},
         {"name": "corrupt", "pkg": "magic", "harnesses": ["HC18Corrupt"], "args": ["-frontier-mult", "1"], "quick_args": fix(tier=0) + ["-solver-timeout-ms", "120000"], "thorough_args": fix(tier=1) + ["-solver-timeout-ms", "300000"], "quick_shards": 16, "thorough_shards": 16},
     ],
-    "must_reach": ["end", "assert:writer-header-accepted", "assert:corrupted-header-rejected"],
-    "bounds": {"quick": {"valid": "all 256^504 block contents x 4 checksum spellings x 0..8 trailing bytes", "corrupt": "spelling 0: 45 positions (every 16th and all field boundaries); other spellings: positions 0,147,156,511; all 255 other values"},
+    "must_reach": ["end", "assert:writer-header-accepted", "assert:writer-style-header-accepted", "assert:corrupted-header-rejected"],
+    "bounds": {"quick": {"valid": "all 256^504 block contents x 4 checksum spellings x 0..8 trailing bytes", "writer": "numeric fields pinned to writer spellings (octal with NUL / space, all NUL, GNU base-256 positive and negative), one field at a time deviating from plain octal; every other byte symbolic; 4 checksum spellings", "corrupt": "spelling 0: 45 positions (every 16th and all field boundaries); other spellings: positions 0,147,156,511; all 255 other values"},
                "thorough": {"corrupt": "spelling 0: all 504 positions outside the checksum field; other spellings: 67 positions"}},
     "outside": ["checksum spellings other than the four listed", "headers whose name contains the Gentoo gpkg marker (excluded by the detector by design)", "tree position of tar (C03: after exe/elf/ar)"],
     "assumptions": ["writer conformance = the checksum field spells the unsigned byte sum with the field taken as spaces"],
